@@ -181,6 +181,29 @@ PROPS = {
         "assumptions": ["declared dictionary = what the harness's lenient scan of the input (or the caller parameter) yields",
                         "output volume is not judged on corrupt input (a damaged size field legitimately announces more data)"],
     },
+    "C07": {
+        "level": "exploration",
+        "variants": {
+            "quick": [("rel", {}), ("dbg", {"scale": 50})],
+            "thorough": [("rel", {"timeout": 4 * 3600}), ("dbg", {"timeout": 4 * 3600, "scale": 30})],
+        },
+        "floors": ["write_partitions", "read_sequences"],
+        "rule": "for every writer (LZMA x4 framings, LZMA2 plain/chunked, XZ x4 option sets incl. pre-filters, LZIP, both MT "
+                "writers, Delta, 8 BCJ writers) and fresh data per run: 20-40 random write partitions (single write, fixed "
+                "sizes 1..100000, log-uniform, with empty writes and flush() every k-th call) must decode to the concatenation "
+                "(filter writers: produce the same filtered bytes as one write); for every reader incl. both MT readers and "
+                "the filter readers: 24-60 buffer-size sequences (1 byte, primes, 4095..4097, > stream, random, zero-length "
+                "reads interleaved and placed before call k, short-reading sources) must yield the bytes of the 64 KiB-buffer "
+                "reference read. Cell = component|side|shape; non-trivial = at least one alternative history was compared.",
+        "manifest": {
+            "text": "Exploration over call histories: the same content is pushed through many write partitions and pulled "
+                    "through many read-buffer sequences and compared with the single-call reference.",
+            "note": "Equality is judged against the component's own single-write / large-buffer result (C01/C02/C11 judge "
+                    "that result itself).",
+            "technique": "runtime monitoring: metamorphic oracle over call histories (partition / buffer-size invariance)",
+        },
+        "assumptions": ["single-write encode and 64 KiB-buffer decode are the reference histories"],
+    },
     "C08": {
         "level": "exploration",
         "variants": {
@@ -254,6 +277,96 @@ PROPS = {
             "technique": "runtime monitoring: worker census hook + failpoint delays + stuck predicate; Miri deadlock detection",
         },
         "assumptions": ["one MT object at a time per process so that the global census is per instance"],
+    },
+    "C11": {
+        "level": "exploration",
+        "variants": {
+            "quick": [("rel", {}), ("dbg", {})],
+            "thorough": [("rel", {"timeout": 4 * 3600}), ("dbg", {"timeout": 4 * 3600})],
+        },
+        "floors": ["compared_with_reference", "bcj2_converted"],
+        "rule": "BCJ: (8 architectures x aligned start offsets {0, small, around 2^31, around 2^32, random} x data {random, "
+                "real executable slice of that architecture, synthetic code dense in its branch opcodes} x lengths "
+                "{0..alignment+24, around the 4096-byte reader buffer, up to 300 KB}): own writer (single write) -> own "
+                "reader (random buffer sequence, short-reading source) must give the input; own filtered bytes must equal "
+                "liblzma's filter output; own reader must invert liblzma's output; liblzma must invert ours. Delta: all 256 "
+                "distances every run plus random ones, same four comparisons. BCJ2: model-encoder streams with conversion "
+                "probability 0..4/4 over dense x86 code, opcode noise (E8/E9/0F 8x, sites in the last 4 bytes, lengths "
+                "around the 256 KiB stream buffer) and real code, read through 1-byte..1 MiB source chunks and random buffers, "
+                "must reconstruct the input. Cell = filter|offset class|data kind|tail length; non-trivial = the filter "
+                "changed at least one byte (BCJ2: converted at least one site).",
+        "manifest": {
+            "text": "Exploration with liblzma's filters as reference model (both directions) and, for BCJ2, the harness's "
+                    "model encoder as generator of correctly encoded inputs.",
+            "note": "BCJ2: no reference encoder exists offline; the model encoder (harness/src/bcj2enc.rs) is the trusted "
+                    "base for 'correctly encoded four-stream input'.",
+            "technique": "runtime monitoring: differential testing against liblzma filters + inverse-function oracle",
+        },
+        "assumptions": [LIBLZMA, "BCJ2 model encoder mirrors the 7-Zip BCJ2 stream format"],
+    },
+    "C12": {
+        "level": "exploration",
+        "variants": {
+            "quick": [("rel", {})],
+            "thorough": [("rel", {"timeout": 4 * 3600})],
+        },
+        "floors": ["xz_streams", "lzip_files"],
+        "rule": "XZ: 1-8 streams (own writer with different checks/options/block sizes and liblzma-made, empty ones included) "
+                "joined by stream padding {0,4,8,12,16,64,1024} (valid) or {1,2,3,5,6,7,9,1023} / a non-zero byte (invalid): "
+                "multi-stream reader must return the concatenation resp. an error; single-stream mode must return exactly "
+                "the first stream and leave the source right behind it. LZIP: 1-8 files (single member, 4 KiB members, MT "
+                "writer, empty) concatenated: LZIPReader and LZIPReaderMT must return the concatenation. Cell = format|"
+                "stream count|padding validity|makers; non-trivial = more than one stream/file.",
+        "manifest": {
+            "text": "Exploration over stream/member sequences and padding lengths with the concatenation as model.",
+            "note": "Component streams come from the crate's writers (C02/C03) and liblzma.",
+            "technique": "runtime monitoring: concatenation model oracle + source position monitor",
+        },
+        "assumptions": [LIBLZMA],
+    },
+    "C16": {
+        "level": "exploration",
+        "variants": {
+            "quick": [("rel", {})],
+            "thorough": [("rel", {"timeout": 4 * 3600})],
+        },
+        "floors": ["streams_with_trailing_bytes"],
+        "rule": "case = (.lzma with end marker / header+size / raw+marker / raw+size, LZMA2 plain and chunked, single-stream "
+                "XZ own and liblzma-made) x in-range options x small and medium data (so that every symbol kind ends some "
+                "stream) x trailing bytes {none, zeros, random, the same stream again, 0xFF, a stream prefix} x read-buffer "
+                "sequences whose last boundary falls 0..8 bytes before the end x {1-byte-per-read, bulk} source. After the "
+                "reader returned Ok(0): decoded bytes == input and into_inner() is positioned exactly at the first "
+                "trailing byte. Cell = container|trailing kind|source kind|length class; non-trivial = trailing bytes present.",
+        "manifest": {
+            "text": "Exploration with a position-recording source: the number of bytes a reader pulled from its source is "
+                    "observed directly, so over-read and under-read are both visible.",
+            "note": "",
+            "technique": "runtime monitoring: source position monitor + round-trip oracle",
+        },
+        "assumptions": [LIBLZMA],
+    },
+    "C18": {
+        "level": "exploration",
+        "variants": {
+            "quick": [("rel", {})],
+            "thorough": [("rel", {"timeout": 4 * 3600})],
+        },
+        "floors": ["units_seen", "reader_counts_checked", "expected_size_cases"],
+        "rule": "case = (XZWriter block_size | LZIPWriter member_size | LZMA2WriterMT chunk_size | LZIPWriterMT member_size) x "
+                "configured size {1, = dict, dict+k, log-uniform, 2 x dict} x dict {4 KiB, 8 KiB, 64 KiB} x input length "
+                "{tiny, k x limit, k x limit + r, log-uniform to 1 MB} x write history {one huge write, 1-byte writes, writes "
+                "straddling the limit by -3..3, exact-limit writes with flushes, random}. Ground truth: the harness walkers' "
+                "per-block / per-member / per-dictionary-reset-run uncompressed sizes. Oracles: no unit larger than "
+                "max(configured, dict); MT writers: every unit but the last exactly that size and ceil(len/size) units; "
+                "LZMA2ReaderMT::chunk_count / LZIPReaderMT::member_count equal the walker's unit count; plus LZMAWriter with "
+                "expected size {equal, smaller, larger, none, 0}: rejects extra bytes, refuses to finish short, header size "
+                "field equals bytes written / all-ones. Cell = writer|history|configured class|length class.",
+        "manifest": {
+            "text": "Exploration over size options and write histories with structural ground truth from independent walkers.",
+            "note": "",
+            "technique": "runtime monitoring: structural oracle over produced files (walkers) + API outcome checks",
+        },
+        "assumptions": [WALKERS],
     },
 }
 
